@@ -197,23 +197,31 @@ def run(spec, rec):
             L = int(rng.integers(5, {1: 30, 2: 14, 3: 8, 4: 6}[nd] + 1))
             x = gen.make_grid(rng, L, kind=str(rng.choice(["default", "uniform", "quadratic", "random"])))
             grids = [x] * nd
-            phi = gen.random_density(rng, (L,) * nd)
+            # the direct paths integrate each population on its own grid: every other multi-population case gives each axis a grid
+            # of its own kind and length
+            pergrid = nd >= 2 and ci % 2 == 1
+            if pergrid:
+                Ls = [int(rng.integers(5, {2: 14, 3: 8, 4: 6}[nd] + 1)) for _ in range(nd)]
+                if len(set(Ls)) == 1:
+                    Ls[-1] += 1
+                grids = [gen.make_grid(rng, Lk, kind=str(rng.choice(["default", "uniform", "quadratic", "random"]))) for Lk in Ls]
+            phi = gen.random_density(rng, tuple(len(g) for g in grids))
             ns = sizes(rng, nd, {1: 30, 2: 10, 3: 5, 4: 3}[nd])
-            desc = {"nd": nd, "L": L, "ns": ns}
+            desc = {"nd": nd, "L": [len(g) for g in grids], "ns": ns, "per_axis_grids": pergrid}
             if not rec.case("dir%d-%d" % (nd, ci), desc, nontrivial=len(set(ns)) == len(ns)):
                 continue
-            tags = {"nd": nd}
+            tags = {"nd": nd, "per_axis_grids": pergrid}
             site = "Spectrum.from_phi"
-            w = gen.trap_weights(x)
-            Bs = [binom_mat(n, x) for n in ns]
-            ref = contract(phi, [B * w[None, :] for B in Bs])
+            ws = [gen.trap_weights(g) for g in grids]
+            Bs = [binom_mat(n, g) for n, g in zip(ns, grids)]
+            ref = contract(phi, [B * wk[None, :] for B, wk in zip(Bs, ws)])
             ok, fd = rec.noraise("from_phi-returns", lambda: Spectrum.from_phi(phi, ns, grids, mask_corners=False, force_direct=True), site=site, tags=tags)
             if ok:
                 rec.hit("arm-direct-%dD" % nd)
                 rec.close("direct-trapezoid", relerr(np.asarray(fd.data), ref), TOL, site=site, tags=tags)
             for k, nm in enumerate(["xx", "yy", "zz"][:nd]):
-                mats = [B * w[None, :] for B in Bs]
-                mats[k] = Bs[k] * (w * x * (1 - x))[None, :]
+                mats = [B * wk[None, :] for B, wk in zip(Bs, ws)]
+                mats[k] = Bs[k] * (ws[k] * grids[k] * (1 - grids[k]))[None, :]
                 refh = contract(phi, mats)
                 okh, fh = rec.noraise("from_phi-returns", lambda: Spectrum.from_phi(phi, ns, grids, mask_corners=False, het_ascertained=nm), site=site, tags=dict(tags, het=nm))
                 if okh:
@@ -237,7 +245,7 @@ def run(spec, rec):
                     for k in range(nd):
                         sh = [1] * nd
                         sh[k] = -1
-                        WW = WW * w.reshape(sh)
+                        WW = WW * ws[k].reshape(sh)
                     refa = np.zeros([n + 1 for n in ns])
                     for idx in itertools.product(*[range(n + 1) for n in ns]):
                         f = np.ones_like(phi)
